@@ -294,7 +294,12 @@ class ExecMixin:
         if not f.bottom and st.orelse:
             self.exec_block(st.orelse, f)
         out = self.join(t, f)
-        out.pc = pc0
+        # control dependence after an early exit: when exactly one arm leaves (return / raise / break / continue), the
+        # code that follows runs only under the other arm's condition
+        if t.bottom != f.bottom:
+            out.pc = (f.pc if t.bottom else t.pc)
+        else:
+            out.pc = pc0
         state.assign_from(out)
 
     def branch(self, test: ast.expr, state: State) -> Tuple[State, State]:
